@@ -95,7 +95,7 @@ claim("C02", E2,
       "state: a symbolic number of additions n in [0,N+3] (capacities 1-4, so exact wrap-around and overwriting are covered) of "
       "transitions whose every field is a fresh symbol, then one sampled batch whose generator draws are arbitrary in-range values; "
       "length=min(n,N), every row equals (all fields) one of the last min(n,N) transitions, each of those is still held, never-"
-      "written (poisoned) slots are never returned; multi-task: <=5 symbolic select/add/sample operations over 2 tasks.",
+      "written (poisoned) slots are never returned; multi-task: <=5 symbolic select/add/sample operations over 2 tasks. PLUS one inductive step: add_sample from an ARBITRARY state satisfying the representation invariant (symbolic cursor/length/contents) re-establishes it and shifts the logical FIFO content - histories of any length for capacities 1-4.",
       E2NOTE + " numpy allocation inside replay_buffer.py is shimmed to object arrays; dtype casts other than flag->int are outside the claim.",
       "path-forking symbolic execution of the real classes under an allocation-only numpy shim; per-path SMT validity of the row-membership disjunction",
       "DESIGN.md §3 C02")
